@@ -17,6 +17,63 @@ def run(run, driver_ok=True, deep=False):
     tier = 'thorough' if deep else run.tier
     clsrun.class_property_run(run, driver_ok, WANT, per_class=40 if tier == 'quick' else 300, n_mut=12, truncations=20, suffixes=True)
     extra(run, tier)
+    reference_frames(run, tier)
+
+
+def ssl2_frames(rng, n):
+    """SSL 2.0 records written from the protocol text, independent of compose(): both header forms, the escape bit,
+    0..255 bytes of padding; (frame bytes, what it is)"""
+    from cryptoparser.tls.subprotocol import SslErrorMessage, SslErrorType, SslHandshakeClientHello
+    from cryptodatahub.tls.algorithm import SslCipherKind
+    out = []
+    kinds = list(SslCipherKind)
+    for _ in range(n):
+        if rng.random() < 0.3:
+            body = b'\x00' + bytes(SslErrorMessage(rng.choice(list(SslErrorType))).compose())
+        else:
+            hello = SslHandshakeClientHello(rng.sample(kinds, rng.randrange(1, 4)), bytes(rng.getrandbits(8) for _ in range(rng.choice([0, 16]))),
+                                            bytes(rng.getrandbits(8) for _ in range(rng.choice([16, 32]))))
+            body = b'\x01' + bytes(hello.compose())
+        pad = rng.choice([0, 1, 7, 8, 255])
+        escape = rng.choice([0, 0x40])
+        total = len(body) + pad
+        if total < 0x4000:
+            out.append((bytes([(total >> 8) | escape, total & 0xff, pad]) + body + bytes(rng.getrandbits(8) for _ in range(pad)),
+                        '3-byte header, escape {}, padding {}'.format(bool(escape), pad)))
+        if len(body) < 0x8000:
+            out.append((bytes([0x80 | (len(body) >> 8), len(body) & 0xff]) + body, '2-byte header'))
+    return out
+
+
+def reference_frames(run, tier):
+    """frames built here from the specification: the consumed length must be the frame length, alone and followed by
+    other bytes (n = the length the header declares), and parse_exact_size must accept the frame"""
+    from cryptoparser.tls.record import SslRecord
+    for frame, what in ssl2_frames(run.rng, 30 if tier == 'quick' else 600):
+        case = {'kind': 'ref-frame', 'cls': 'SslRecord', 'data': core.hx(frame), 'what': what}
+        run.evaluations += 1
+        run.count('reference_frames', 'SslRecord ' + what.split(',')[0])
+        run.note_nontrivial(('ref-frame', core.hx(frame)))
+        for key, msg in reference_frame_props(SslRecord, frame, what):
+            run.finding(key, msg, case)
+
+
+def reference_frame_props(cls, frame, what):
+    name = cls.__name__
+    for sfx in (b'', b'\x00', frame, b'\xff' * 5):
+        try:
+            _, n = cls.parse_immutable(frame + sfx)
+        except Exception as exc:  # pylint: disable=broad-except
+            return [('declared-length:' + name, '{} ({}): a frame written from the specification followed by {} bytes is rejected: {}'.format(
+                name, what, len(sfx), core.err_line(exc)))]
+        if n != len(frame):
+            return [('declared-length:' + name, '{} ({}): consumed {} bytes of a frame whose header declares {} (suffix of {} bytes): {}'.format(
+                name, what, n, len(frame), len(sfx), core.hx(frame)[:120]))]
+    try:
+        cls.parse_exact_size(frame)
+    except Exception as exc:  # pylint: disable=broad-except
+        return [('declared-length:' + name, '{} ({}): parse_exact_size of a conformant frame raised {}'.format(name, what, core.err_line(exc)))]
+    return []
 
 
 def extra(run, tier):
@@ -44,4 +101,7 @@ def replay(case):
     if case.get('kind') == 'corpus':
         from harness import corpus_props
         return corpus_props.replay(case)
+    if case.get('kind') == 'ref-frame':
+        from cryptoparser.tls.record import SslRecord
+        return reference_frame_props(SslRecord, core.unhx(case['data']), case.get('what', ''))
     return []
